@@ -66,6 +66,10 @@ def jobs(tier, seed):
         for spec in JOINS:
             js.append({"label": f"{spec[0]}{spec[1]}|spurious2", "wl": spec, "budget": {"spurious": 2}})
             js.append({"label": f"{spec[0]}{spec[1]}|spurious1,noack1", "wl": spec, "budget": {"spurious": 1, "noack": 1}})
+    # loops under a worker death at any point of any delivery: a redelivered message must not start a task in a stage
+    # that a jump has meanwhile re-armed
+    for spec in [wl("jump_cycle", 2, 1), wl("jump_two_targets"), wl("jump_back_multitask", 1), wl("jump_sibling_fanin", 1)]:
+        js.append({"label": f"{spec[0]}{spec[1]}|worker-death1", "wl": spec, "budget": {"noack": 1}, "max_states": 400000})
     # an older bystander workflow in the same store uses the same ref_ids with another dependency shape
     for kind, name, *args in (("nodeps", "chain3"), ("nodeps", "diamond"), ("chain", "diamond"), ("nodeps", "first_of"),
                               ("nodeps", "quorum"), ("chain", "fan3")):
